@@ -79,6 +79,8 @@ MUTATORS = {
         ("suzuki weight", r"quimb/tensor/tnag/tebd\.py$", r"^(\s+)s = 1 / \(4 - 4 \*\* \(1 / 3\)\)\s*$", r"\1s = 1 / (4 - 4 ** (1 / 2))"),
         ("stale cache", r"quimb/tensor/tnag/tebd\.py$", r"^(\s+)self\._op_cache\.clear\(\)\s*$", None),
         ("time not advanced", r"quimb/tensor/tn1d/tebd\.py$", r"^(\s+)self\.t \+= dt\s*$", r"\1self.t += self._dt"),
+        ("reverse pair not flipped", r"quimb/tensor/tnag/tebd\.py$", r"^(\s+)G = self\._flip_cached\(G\)\s*$", r"\1pass"),
+        ("boundary gate on sorted pair", r"quimb/tensor/tn1d/tebd\.py$", r"^(\s+)U, where=sites, absorb=\"left\", \*\*self\.split_opts\s*$", r'\1U, where=(0, self.L - 1), absorb="left", **self.split_opts'),
     ],
     "C12": [
         ("drop cap (boundary)", r"quimb/tensor/(tn2d/core|tn3d/core|tnag/compress|tensor_core)\.py$", r"^(\s+)max_bond=max_bond,\s*$", None),
